@@ -1893,6 +1893,260 @@ func genC16(p *Pkg) (map[string]string, error) {
 		}
 		b.WriteString("]\n\n")
 	}
+	// ---- the compiler's side of the names contract: every site that sets `dynamic`, the function-entry construction
+	// sites with the statement that installs their names map, hasStash / isFunction
+	{
+		var dynSites, entrySites []pair
+		isEntryLit := func(e ast.Expr) (*ast.CompositeLit, string) {
+			if u, ok := e.(*ast.UnaryExpr); ok && u.Op == token.AND {
+				e = u.X
+			}
+			if cl, ok := e.(*ast.CompositeLit); ok {
+				if id, ok := cl.Type.(*ast.Ident); ok && (id.Name == "enterFunc" || id.Name == "enterFunc1" || id.Name == "enterFuncBody") {
+					return cl, id.Name
+				}
+			}
+			return nil, ""
+		}
+		field := func(cl *ast.CompositeLit, name string) string {
+			for _, el := range cl.Elts {
+				if kv, ok := el.(*ast.KeyValueExpr); ok {
+					if k, ok := kv.Key.(*ast.Ident); ok && k.Name == name {
+						return g.str(kv.Value)
+					}
+				}
+			}
+			return "<unset>"
+		}
+		for _, fn := range fileNames {
+			for _, d := range p.Files[fn].Decls {
+				fd, ok := d.(*ast.FuncDecl)
+				if !ok || fd.Body == nil {
+					continue
+				}
+				name := fd.Name.Name
+				if _, typ, _ := recvInfo(fd); typ != "" {
+					name = typ + "." + name
+				}
+				// statements assigning `.dynamic`: rendered with the innermost enclosing for-loop (the marking loop) if any
+				var loops []*ast.ForStmt
+				var visit func(n ast.Node) bool
+				visit = func(n ast.Node) bool {
+					switch x := n.(type) {
+					case *ast.ForStmt:
+						loops = append(loops, x)
+						ast.Inspect(x.Body, visit)
+						loops = loops[:len(loops)-1]
+						return false
+					case *ast.AssignStmt:
+						for _, l := range x.Lhs {
+							if sel, ok := l.(*ast.SelectorExpr); ok && sel.Sel.Name == "dynamic" {
+								if len(loops) > 0 {
+									dynSites = append(dynSites, pair{name, g.str(loops[len(loops)-1])})
+								} else {
+									dynSites = append(dynSites, pair{name, g.str(x)})
+								}
+							}
+						}
+					case *ast.BlockStmt:
+						for i, st := range x.List {
+							var rhs []ast.Expr
+							switch y := st.(type) {
+							case *ast.AssignStmt:
+								rhs = y.Rhs
+							case *ast.DeclStmt:
+								if gd, ok := y.Decl.(*ast.GenDecl); ok {
+									for _, sp := range gd.Specs {
+										if vs, ok := sp.(*ast.ValueSpec); ok {
+											rhs = append(rhs, vs.Values...)
+										}
+									}
+								}
+							}
+							for _, r := range rhs {
+								if cl, ty := isEntryLit(r); cl != nil {
+									next := "<none>"
+									if i+1 < len(x.List) {
+										next = g.str(x.List[i+1])
+									}
+									entrySites = append(entrySites, pair{name + ":" + ty, "extensible=" + field(cl, "extensible") + "; funcType=" + field(cl, "funcType") + "; then " + next})
+								}
+							}
+						}
+					}
+					return true
+				}
+				ast.Inspect(fd.Body, visit)
+			}
+		}
+		if len(dynSites) == 0 || len(entrySites) == 0 {
+			return nil, fmt.Errorf("no site sets scope.dynamic / no function-entry construction site found")
+		}
+		wp("dynamicSites", dynSites)
+		wp("entrySites", entrySites)
+		for _, it := range [][3]string{{"scope", "hasStash", "body_hasStash"}, {"scope", "isFunction", "body_isFunction"}, {"scope", "isDynamic", "body_isDynamic"},
+			{"", "cloneTemplateValues", "body_cloneTemplateValues"}, {"", "setArrayValues", "body_setArrayValues"}} {
+			l, err := body(it[0], it[1])
+			if err != nil {
+				return nil, err
+			}
+			if len(l) > 1 && it[2] == "body_hasStash" {
+				l = l[:1] // only the decision that matters here: `if s.dynamic { return true }`
+			}
+			fmt.Fprintf(&b, "def %s : List String := [", it[2])
+			for i, x := range l {
+				if i > 0 {
+					b.WriteString(", ")
+				}
+				b.WriteString(LeanString(x))
+			}
+			b.WriteString("]\n\n")
+		}
+	}
+
+	// ---- what the callees of the escape rows do with the argument: for every `escape` row whose sink is `argN f`,
+	// how the N-th parameter of f is used (read-only: ranged over / indexed / len / compared; stored; written; passed on)
+	{
+		var uses []pair
+		seenU := map[string]bool{}
+		for _, a := range accs2 {
+			if a.kind != "escape" && a.kind != "escape-iface" {
+				continue
+			}
+			var n int
+			var callee string
+			if _, err := fmt.Sscanf(a.sink, "arg%d %s", &n, &callee); err != nil {
+				continue
+			}
+			key := fmt.Sprintf("%s#%d", callee, n)
+			if seenU[key] {
+				continue
+			}
+			seenU[key] = true
+			fname := callee
+			recvT := ""
+			if i := strings.LastIndex(callee, "."); i >= 0 {
+				fname = callee[i+1:]
+				switch callee[:i] {
+				case "vm":
+					recvT = "vm"
+				case "vm.r":
+					recvT = "Runtime"
+				case "obj.self": // objectImpl method: the base implementation
+					recvT = "baseObject"
+				default:
+					recvT = "?"
+				}
+			}
+			var fd *ast.FuncDecl
+			if recvT == "" {
+				fd = p.FuncDecl("", fname)
+			} else if recvT != "?" {
+				fd = g.methods[recvT][fname]
+			}
+			if fd == nil || fd.Body == nil {
+				uses = append(uses, pair{key, "unresolved"})
+				continue
+			}
+			// n-th parameter name
+			var params []string
+			for _, f := range fd.Type.Params.List {
+				if len(f.Names) == 0 {
+					params = append(params, "_")
+				}
+				for _, nm := range f.Names {
+					params = append(params, nm.Name)
+				}
+			}
+			if n >= len(params) {
+				uses = append(uses, pair{key, "variadic-or-unknown"})
+				continue
+			}
+			pn := params[n]
+			kinds := map[string]bool{}
+			var walkU func(n ast.Node, ctxk string)
+			walkU = func(n ast.Node, ctxk string) {
+				switch x := n.(type) {
+				case nil:
+				case *ast.Ident:
+					if x.Name == pn {
+						kinds[ctxk] = true
+					}
+				case *ast.RangeStmt:
+					walkU(x.X, "read")
+					walkU(x.Body, "other")
+				case *ast.IndexExpr:
+					walkU(x.X, "read")
+					walkU(x.Index, "other")
+				case *ast.SelectorExpr:
+					walkU(x.X, "read")
+				case *ast.BinaryExpr:
+					walkU(x.X, "read")
+					walkU(x.Y, "read")
+				case *ast.CallExpr:
+					if id, ok := x.Fun.(*ast.Ident); ok && (id.Name == "len" || id.Name == "cap") {
+						for _, a := range x.Args {
+							walkU(a, "read")
+						}
+						return
+					}
+					walkU(x.Fun, "other")
+					for _, a := range x.Args {
+						walkU(a, "passed:"+g.str(x.Fun))
+					}
+				case *ast.AssignStmt:
+					for _, l := range x.Lhs {
+						// a write THROUGH the parameter: p[i] = …, p.f = …, *p = …
+						switch t := l.(type) {
+						case *ast.IndexExpr:
+							walkU(t.X, "written")
+							walkU(t.Index, "other")
+						case *ast.SelectorExpr:
+							walkU(t.X, "written")
+						case *ast.StarExpr:
+							walkU(t.X, "written")
+						default:
+							walkU(l, "rebound")
+						}
+					}
+					for i, r := range x.Rhs {
+						k := "stored"
+						if i < len(x.Lhs) {
+							k = "stored:" + g.str(x.Lhs[i])
+						}
+						walkU(r, k)
+					}
+				case *ast.ReturnStmt:
+					for _, r := range x.Results {
+						walkU(r, "returned")
+					}
+				default:
+					ast.Inspect(n, func(m ast.Node) bool {
+						if m == nil || m == n {
+							return true
+						}
+						switch m.(type) {
+						case *ast.Ident, *ast.RangeStmt, *ast.IndexExpr, *ast.SelectorExpr, *ast.BinaryExpr, *ast.CallExpr, *ast.AssignStmt, *ast.ReturnStmt:
+							walkU(m, "other")
+							return false
+						}
+						return true
+					})
+				}
+			}
+			walkU(fd.Body, "other")
+			var ks []string
+			for k := range kinds {
+				if k != "other" || len(kinds) == 1 {
+					ks = append(ks, k)
+				}
+			}
+			sort.Strings(ks)
+			uses = append(uses, pair{key, strings.Join(ks, " | ")})
+		}
+		wp("calleeParamUse", uses)
+	}
+
 	// Symbol struct
 	syt, ok := g.types["Symbol"].(*ast.StructType)
 	if !ok {
